@@ -209,6 +209,7 @@ type Plugin struct {
 	H         Handlers
 	Stub      stub.Stub
 
+	smu        sync.Mutex // guards the per-session channels below against Restart
 	closedOnce sync.Once
 	Closed     chan struct{}
 	syncedOnce sync.Once
@@ -230,7 +231,9 @@ func (p *Plugin) Connect(sock string, extra ...stub.Option) error {
 		stub.WithSocketPath(sock),
 		stub.WithOnClose(func() {
 			p.OnCloseN.Add(1)
+			p.smu.Lock()
 			p.closedOnce.Do(func() { close(p.Closed) })
+			p.smu.Unlock()
 		}),
 	}
 	opts = append(opts, extra...)
@@ -240,6 +243,17 @@ func (p *Plugin) Connect(sock string, extra ...stub.Option) error {
 	}
 	p.Stub = st
 	return st.Start(context.Background())
+}
+
+// Restart starts the same stub instance again (after its connection was lost or it was stopped).
+func (p *Plugin) Restart() error {
+	p.smu.Lock()
+	p.Closed = make(chan struct{})
+	p.closedOnce = sync.Once{}
+	p.Synced = make(chan struct{})
+	p.syncedOnce = sync.Once{}
+	p.smu.Unlock()
+	return p.Stub.Start(context.Background())
 }
 
 func (p *Plugin) StopStub() {
@@ -267,7 +281,11 @@ func (p *Plugin) Configure(_ context.Context, cfg, rt, ver string) (api.EventMas
 
 func (p *Plugin) Synchronize(ctx context.Context, pods []*api.PodSandbox, ctrs []*api.Container) ([]*api.ContainerUpdate, error) {
 	p.SyncTick.Store(Tick())
-	defer p.syncedOnce.Do(func() { close(p.Synced) })
+	defer func() {
+		p.smu.Lock()
+		p.syncedOnce.Do(func() { close(p.Synced) })
+		p.smu.Unlock()
+	}()
 	if p.H.Synchronize != nil {
 		return p.H.Synchronize(ctx, pods, ctrs)
 	}
